@@ -194,7 +194,12 @@ struct Ctx {
     auto it = maxv.find(k);
     if (it == maxv.end() || v > it->second) maxv[k] = v;
   }
-  void nontrivial(uint64_t h) { hashes.insert(h); }
+  // distinct non-trivial cases: measured per process up to a cap (a lower
+  // bound beyond it; the cap keeps the logs of exhaustive runs bounded)
+  size_t hashCap = 60000;
+  void nontrivial(uint64_t h) {
+    if (hashes.size() < hashCap) hashes.insert(h);
+  }
   void sample(const std::string &s, size_t cap = 3) {
     if (samples.size() < cap) samples.push_back(s);
   }
